@@ -226,6 +226,39 @@ func roundTrip(c *lcm.Coordinator, evs []lcm.VerifEvent, dir string, n int) []po
 	}
 	f.Close()
 	parsed := porcupine.ParseJepsenLog(fn)
+	// the same log without the newline after its last line (a log cut by a copy, an editor, a crash of the writer between
+	// the line and its terminator) is the same history
+	if raw, err := os.ReadFile(fn); err == nil && len(raw) > 0 && raw[len(raw)-1] == '\n' {
+		fn2 := filepath.Join(dir, "drummer-lcm-nonl.jepsen")
+		if os.WriteFile(fn2, raw[:len(raw)-1], 0644) == nil {
+			// (the returns the parser appends for operations still open at the end come in map order: canonical order first)
+			canon := func(ps []pev) []pev {
+				k := len(ps)
+				for k > 0 && !ps[k-1].call && ps[k-1].unknown {
+					k--
+				}
+				tail := ps[k:]
+				sort.Slice(tail, func(i, j int) bool { return tail[i].id < tail[j].id })
+				return ps
+			}
+			alt := canon(decode(porcupine.ParseJepsenLog(fn2)))
+			ref := canon(decode(parsed))
+			same := len(alt) == len(ref)
+			for i := 0; same && i < len(ref); i++ {
+				same = alt[i] == ref[i]
+			}
+			run.Count("c07:unterminated_last_line_checked")
+			if !same {
+				what := fmt.Sprintf("the log parsed without the newline after its last line gives %d events, with it %d: the last line is read differently (an operation whose completion is on that line is left open-ended, i.e. unconstrained for the checker)", len(alt), len(ref))
+				arr := [][]interface{}{}
+				for _, e := range evs[:minInt(len(evs), 60)] {
+					arr = append(arr, []interface{}{e.Type, e.Result, e.ID, e.Value})
+				}
+				run.Violate(hx.Violation{Property: "C07", Clause: "log_roundtrip", Signature: "unterminated-last-line-parsed-differently", Seq: n, What: what, Ops: arr})
+				run.Violate(hx.Violation{Property: "C06", Clause: "verdict_exact_at_the_binary", Signature: "unterminated-last-line-parsed-differently", Seq: n, What: what, Ops: arr})
+			}
+		}
+	}
 	ps := decode(parsed)
 	k := len(ps)
 	for k > 0 && !ps[k-1].call && ps[k-1].unknown {
@@ -417,9 +450,18 @@ func main() {
 			run.Count("c07:lock_contention_runs")
 			for round := 0; round < 40; round++ {
 				c.VerifLockHistory()
+				before := len(c.VerifEventsLocked())
 				done := make(chan struct{})
 				go func() { c.VerifSchedule(); close(done) }()
 				time.Sleep(time.Duration(3+r.Intn(4)) * time.Millisecond)
+				// nobody records anything while the history mutex is held by somebody else: an event appended now was appended
+				// without the mutex, i.e. it races with every other recorder and with SaveAsJepsenLog (events get lost)
+				if after := c.VerifEventsLocked(); len(after) != before {
+					e := after[len(after)-1]
+					run.Violate(hx.Violation{Property: "C07", Clause: "history_well_formed", Signature: "event-recorded-without-the-history-mutex", Seq: n,
+						What: fmt.Sprintf("while the harness held the history mutex the history grew from %d to %d events (last: type %d result %d process %d): that recorder does not take the mutex", before, len(after), e.Type, e.Result, e.ID),
+						Ops:  []string{fmt.Sprintf("coordinator run %d, round %d: history mutex held; scheduleProcesses started in another goroutine; history read under the lock before and after", n, round)}})
+				}
 				logged := map[string]bool{}
 				for _, e := range c.VerifEventsLocked() {
 					if e.Type == 1 && e.Result == 0 {
